@@ -7,7 +7,7 @@ SPEC = {
     'coq_targets': ['theories/Properties/C10_msgpack.vo', 'theories/Wire/MsgpackProofs.vo', 'theories/Wire/MsgpackRT.vo', 'theories/Wire/MsgpackCorr.vo'],
     'closure_dirs': ['theories/Wire/Msgpack.v', 'theories/Wire/MsgpackProofs.v', 'theories/Wire/MsgpackRT.v', 'theories/Wire/MsgpackCorr.v',
                      'theories/Wire/Item.v', 'theories/Base/Outcome.v', 'theories/C10/MsgpackSpec.v',
-                     'theories/C10/MsgpackProofs.v', 'theories/Gen/Consts.v'],
+                     'theories/C10/MsgpackProofs.v', 'theories/C10/LeafTie.v', 'theories/C10/LeafTieMsgpack.v', 'theories/Base/Word.v', 'theories/Gen/Consts.v', 'theories/Gen/Leaf2.v'],
     'harness': 'wiremsgpack',
     'args': {
         'quick': ['-enc', 900, '-ref', 900, '-mut', 800, '-rand', 500, '-deep', 2000000],
